@@ -92,7 +92,15 @@ func (r *Runner) execChmap(a []string) string {
 	}
 	r.chmapOracle(e, me.m, scale, res, resx)
 	r.chmapIndependence(e, me.m, scale)
-	return "ok"
+	// what is exact in the result: the mapping it carries, the zero weight, the rescaled statistics
+	pb := res.IndexMapping.ToProto()
+	out := fmt.Sprintf("ok map=%d:%s:%s zero=%s", int(pb.Interpolation), showF(pb.Gamma), showF(pb.IndexOffset), showF(res.GetZeroCount()))
+	if resx != nil {
+		mn, e1 := resx.GetMinValue()
+		mx, e2 := resx.GetMaxValue()
+		out += fmt.Sprintf(" count=%s sum=%s min=%s max=%s", showF(resx.GetCount()), showF(resx.GetSum()), showValErr(mn, e1), showValErr(mx, e2))
+	}
+	return out
 }
 
 func (r *Runner) chmapOracle(e *skEntry, m2 mapping.IndexMapping, scale float64, res *ddsketch.DDSketch, resx *ddsketch.DDSketchWithExactSummaryStatistics) {
